@@ -596,12 +596,43 @@ def _dispatch_and_publication(ctx):
     source_to_code_protocol(ctx, 'C05.R8')
     um = repo.mod('beartype.claw._ast._clawastutil')
     kc = repo.find_def(um.name, 'BeartypeNodeTransformerUtilityMixin._make_node_keyword_conf')
-    txt = [norm(k.value) for c in walk_shallow(kc) if isinstance(c, ast.Call) and dotted(c.func) == 'make_node_str' for k in c.keywords if k.arg == 'text']
-    attr = [norm(k.value) for c in walk_shallow(kc) if isinstance(c, ast.Call) and dotted(c.func) == 'make_node_object_attr_load'
-            for k in c.keywords if k.arg == 'attr_name']
+    # by interpretation: the keyword the injected decorator carries is conf=<table>[<module name>] — the table attribute and the
+    # key are whatever the factory helpers are handed (positionally or by keyword, literally or through a constant)
+    from sa.fold import AObj as _AO, FuncVal as _FV, _Abort as _Ab, _Raise as _Ra, _call_function as _cf, bind_call
+    from . import _gen
+    F_ = _gen.engines(ctx)[0].f
+    ucls = F_.const(um.name, 'BeartypeNodeTransformerUtilityMixin')
+    kfn = ucls.find('_make_node_keyword_conf')
+    ctx.require(isinstance(kfn, _FV), 'anchor vanished: _make_node_keyword_conf')
+    mkq = 'beartype._util.ast.utilastmake.'
+    rec = {}
+    saved_st = dict(F_.stubs)
+    for nm_, fv_ in sorted(F_.module_env(mkq[:-1]).items()):
+        if isinstance(fv_, _FV) and nm_.startswith('make_node') and fv_.module == mkq[:-1]:
+            F_.stubs[mkq + nm_] = (lambda nm_, fv_: (lambda e, a, k: rec.setdefault(nm_, []).append(bind_call(fv_, a, k)) or ('NODE', nm_)))(nm_, fv_)
+
+    F_.stubs['beartype._util.ast.utilastmunge.copy_node_metadata'] = lambda e, a, k: None
+    F_.ext_stubs_saved = dict(F_.ext_stubs)
+    for K_ in ('Subscript', 'Name', 'Attribute', 'Constant', 'keyword', 'Load', 'Store'):
+        F_.ext_stubs[f'ast.{K_}'] = (lambda K_: (lambda e, a, k: ('NODE', K_)))(K_)
+
+    class _S(_AO):
+        _module_name = 'pkg.mod'
+    try:
+        try:
+            _cf(F_, kfn, [_S()], {'node_sibling': 'SIBLING'}, 1)
+        except (_Ab, _Ra) as ex:
+            ctx.require(False, f'cannot interpret _make_node_keyword_conf: {ex}')
+    finally:
+        F_.stubs.clear()
+        F_.stubs.update(saved_st)
+        F_.ext_stubs.clear()
+        F_.ext_stubs.update(F_.ext_stubs_saved)
+    txt = [b.get('text') for b in rec.get('make_node_str', [])]
+    attr = [b.get('attr_name') for b in rec.get('make_node_object_attr_load', [])]
     ctx.ob('C05.R8', 'injected-lookup:same-table-same-key', um.where(kc),
-           'injected code reads module_name_to_beartype_conf[<module name>]', txt == ['self._module_name'] and
-           attr == ["'module_name_to_beartype_conf'"], f'key {txt}, table {attr}')
+           'injected code reads module_name_to_beartype_conf[<module name>]', txt == ['pkg.mod'] and
+           attr == ['module_name_to_beartype_conf'], f'key {txt}, table {attr}')
 
 
 def _annassign(ctx):
@@ -630,15 +661,20 @@ def _annassign(ctx):
     for K in _EXPR_KINDS | {'Expr', 'keyword'}:
         F.ext_stubs[f'ast.{K}'] = (lambda K: lambda e, a, k: made.append(_ANode(K, made_with=dict(k), args=list(a), **k)) or made[-1])(K)
 
-    def maker(kind):
+    from sa.fold import bind_call
+
+    def maker(kind, fv):
         def f(env, a, k):
-            n = _ANode(kind, made_with=dict(k), args=list(a))
+            # (however the factory is called — positionally or by keyword — the record is by parameter name)
+            b = bind_call(fv, a, k) if isinstance(fv, FuncVal) else dict(k)
+            n = _ANode(kind, made_with=b, args=[])
             made.append(n)
             return n
         return f
     for nm, kind in (('make_node_name_load', 'Name'), ('make_node_object_attr_load', 'Attribute'), ('make_node_str', 'Constant'),
                      ('make_node_kwarg', 'keyword'), ('make_node_call_expr', 'ExprCall'), ('make_node_call', 'Call')):
-        F.stubs[mk + nm] = maker(kind)
+        # (make_node_call_expr(*args, node_sibling, **kwargs) forwards its arguments to make_node_call: bound against that signature)
+        F.stubs[mk + nm] = maker(kind, F.const(mk[:-1], 'make_node_call' if nm == 'make_node_call_expr' else nm))
     F.ext_stubs['ast.unparse'] = lambda e, a, k: 'obj'
     F.stubs['beartype._util.text.utiltextansi.color_attr_name'] = lambda e, a, k: 'name'
     F.stubs['beartype._util.ast.utilastmunge.copy_node_metadata'] = lambda e, a, k: None
@@ -669,8 +705,8 @@ def _annassign(ctx):
                         sc.is_scope_class, sc.is_scope_module = cls_scope, scope == 'module'
                         s._scopes = sc
                         s.generic_visit = lambda node: node
-                        s.map_node_attr_imported_to_assigned = lambda **k: None
-                        s._make_node_keyword_conf = lambda **k: _ANode('keyword')
+                        s.map_node_attr_imported_to_assigned = lambda *a, **k: None
+                        s._make_node_keyword_conf = lambda *a, **k: _ANode('keyword')
                         pk = tkind[len('Attribute(of '):-1] if '(' in tkind else 'Name'
                         par = _ANode(pk, id='o', attr='b', value=_ANode('Name', id='p'), slice=_ANode('Constant'),
                                      func=_ANode('Name', id='f'), args=[], keywords=[])
@@ -792,7 +828,7 @@ def _placement(ctx):
                         s._scope.beforelist.scoped_attr_basename_trie = {'hostile': True}
                         s._scope.beforelist.schema_attr_basename_trie = {}
                         s._is_node_scoped_attr_name = lambda nd: bool(getattr(nd, 'hostile', False))
-                        s._make_node_keyword_conf = lambda **k: _ANode('keyword', injected=True)
+                        s._make_node_keyword_conf = lambda *a, **k: _ANode('keyword', injected=True)
                         try:
                             _call_function(F, fn, [s], dict(node=node, conf=conf), 1)
                         except (_Abort, _Raise) as ex:
